@@ -21,7 +21,7 @@ func init() {
 	core.Register(&core.Prop{
 		ID:    "C07",
 		Level: "exploration",
-		Rule: "an independent reference sender announces synthetic STAT sequences (all entry types, link groups, empty and multi-chunk files) to the real Receive over prior destinations {empty, mutated copy, unrelated}, with DATA chunkings {1B, 7B, 4KiB, 32KiB-1, 32KiB, 32KiB+1, 1MiB, mixed}, id interleavings {sequential, round-robin, random, reverse}, DATA racing the remaining STATs or not, stream capacity {0,1,8,64}; every REQ is checked online (announced, regular, non-link, once), the REQ set is compared with the identity model, dest bytes are read at the instant FIN arrives, the final dest is compared with the model; a fraction of sessions closes the stream before FIN and demands an error. " +
+		Rule: "an independent reference sender announces synthetic STAT sequences (all entry types, link groups, empty and multi-chunk files) to the real Receive over prior destinations {empty, mutated copy, unrelated}, with DATA chunkings {1B, 7B, 4KiB, 32KiB-1, 32KiB, 32KiB+1, 1MiB, mixed}, id interleavings {sequential, round-robin, random, reverse}, DATA racing the remaining STATs or not, stream capacity {0,1,8,64}; every REQ is checked online (announced, regular, non-link, once), the REQ set is compared with the identity model, dest bytes are read at the instant FIN arrives, the final dest is compared with the model; a fraction of sessions closes the stream before FIN and demands an error; a fifth of the sessions run the receiver as an ordinary user, a quarter with a Filter that rejects entries, 1 in 20 announces 350-900 files before the first answer (thorough tier: a few sessions with more than 65536 entries). " +
 			"non-trivial = session with at least one requested multi-chunk file or >=3 interleaved ids; distinct by (tree, prior, chunking, interleaving, race, capacity) fingerprint",
 		Assumptions: []string{"root", "the reference sender is conforming by construction (STATs ascending, ids = STAT positions, one terminator per id, FIN echoed)"},
 		Cases: func(tier string) int {
@@ -31,6 +31,7 @@ func init() {
 			return 1000
 		},
 		Batch:         25,
+		CaseTimeout:   400 * 1e9,
 		MinNontrivial: func(tier string) int { return 100 },
 		Run:           c07Run,
 	})
@@ -58,12 +59,30 @@ func c07Run(c *core.Ctx) *core.Result {
 	}
 	src := tree.Gen(R, o)
 	fanout := !unpriv && R.P(1, 20)
+	huge := false
 	if fanout {
 		// scale: several hundred files to request (more than the writer and
 		// the queues between the receive loop and the writer hold together),
 		// with the whole listing announced before the first answer
 		src = fanoutTree(R, R.Range(350, 900))
 		r.Count("fanout_sessions", 1)
+		if c.Thorough() && R.P(1, 200) {
+			// more entries than 16 bits can number (tiny files; thorough
+			// tier only: such a session takes a minute or two)
+			n := 65600 + R.Intn(1500)
+			src = &tree.Tree{}
+			src.Entries = append(src.Entries, tree.Entry{Path: "d", Type: tree.Dir, Perm: 0755, Mtime: 1e18})
+			for i := 0; i < n; i++ {
+				p := fmt.Sprintf("f%06d", i)
+				if i%2 == 0 {
+					p = "d/" + p
+				}
+				src.Entries = append(src.Entries, tree.Entry{Path: p, Type: tree.File, Perm: 0644, Mtime: 1e18 + int64(i), Data: []byte(fmt.Sprintf("%x", i))[:1+i%3]})
+			}
+			src.Sort()
+			huge = true
+			r.Count("sessions_with_more_than_65536_entries", 1)
+		}
 	}
 	if unpriv {
 		for i := range src.Entries {
@@ -148,6 +167,12 @@ func c07Run(c *core.Ctx) *core.Result {
 	}
 	rs.Inter = core.Pick(R, []string{"sequential", "roundrobin", "random", "reverse"})
 	rs.Race = R.P(1, 2) && !fanout
+	if huge {
+		// one file at a time: interleaving tens of thousands of ids would
+		// keep that many destination files open at once (the descriptor
+		// limit of the process, not the receiver, would decide the outcome)
+		rs.Inter = "sequential"
+	}
 	rs.Dest = dest
 	rs.CloseEarly = R.P(1, 12)
 	capn := core.Pick(R, []int{0, 1, 8, 64})
